@@ -15,14 +15,12 @@ From PV Require Import Base.Prelude Spec.LuaTokens Model.FmtSpaces Model.FmtSpac
 From Coq Require Import Lia.
 
 Lemma fmt_run_nil cfg : fmt_run cfg [] = [].
-Proof. destruct cfg as [[|] [|] w d]; reflexivity. Qed.
+Proof. apply fmt_run_empty. Qed.
 
 Lemma fmt_spaces_nil w s ind e : fmt_spaces w s ind e [] = [].
 Proof. unfold fmt_spaces, run_code. cbn [map concat]. apply fmt_run_nil. Qed.
 
 (* ---------- edges of a text ---------- *)
-Definition starts_nl (t : list Z) : bool := match t with c :: _ => c =? NL | [] => false end.
-
 Definition ends_code (t : list Z) : Prop := exists t' c, t = t' ++ [c] /\ c <> SP /\ c <> NL.
 
 (* a code token's text *)
@@ -204,9 +202,8 @@ Proof.
   destruct (split_nl (canon_ws r)) as [|l0 ls] eqn:HS; [destruct (split_nl_nonempty _ HS)|].
   rewrite (fmt_run_lines cfg r l0 ls HS) in *.
   destruct (f_at_end cfg).
-  - destruct (trail_nl_spec (joinl (fmt_lines cfg l0 ls))) as [[_ E] | [(_ & _ & E) | (a & c & b & _ & Hc & _ & E)]];
-      rewrite E in *; [reflexivity | |].
-    + exfalso. inversion Hn; subst. congruence.
+  - destruct (trail_nl_spec (joinl (fmt_lines cfg l0 ls))) as [[_ E] | (a & c & b & _ & Hc & _ & E)]; rewrite E in *.
+    + destruct (existsb is_nl _); [|reflexivity]. exfalso. inversion Hn; subst. congruence.
     + exfalso. rewrite all_sp_app in Hsp. apply andb_true_iff in Hsp. destruct Hsp as [_ Hsp]. cbn [forallb] in Hsp.
       apply andb_true_iff in Hsp. destruct Hsp as [Hsp _]. unfold is_sp in Hsp. unfold is_sp_nl in Hc.
       rewrite Hsp in Hc. discriminate.
@@ -243,22 +240,6 @@ Proof.
 Qed.
 
 (* ====================================================================== no trailing blanks, no double blank lines *)
-Lemma has_sp_nl_app a b :
-  has_sp_nl (a ++ b) = has_sp_nl a || has_sp_nl b || (ends_sp a && starts_nl b).
-Proof.
-  induction a as [|c a IH].
-  - cbn. rewrite orb_false_r. reflexivity.
-  - destruct a as [|d a'].
-    + cbn [app has_sp_nl ends_sp]. destruct b as [|e b']; cbn [starts_nl has_sp_nl].
-      * rewrite andb_false_r. reflexivity.
-      * destruct ((c =? SP) && (e =? NL)); cbn; [rewrite orb_true_r|rewrite orb_false_r]; reflexivity.
-    + change ((c :: d :: a') ++ b) with (c :: (d :: a') ++ b).
-      change (has_sp_nl (c :: (d :: a') ++ b)) with (((c =? SP) && (d =? NL)) || has_sp_nl ((d :: a') ++ b)).
-      rewrite IH. change (has_sp_nl (c :: d :: a')) with (((c =? SP) && (d =? NL)) || has_sp_nl (d :: a')).
-      change (ends_sp (c :: d :: a')) with (ends_sp (d :: a')).
-      rewrite !orb_assoc. reflexivity.
-Qed.
-
 Lemma ends_code_ends_sp t : ends_code t -> ends_sp t = false.
 Proof.
   intros (t' & c & -> & Hc & _). rewrite ends_sp_app by discriminate. cbn. apply Z.eqb_neq. exact Hc.
